@@ -335,7 +335,7 @@ def extract(text, spec, with_attrs=False):
                 continue
             for p in _find_seq(toks, pt, lo, hi):
                 q = p + len(pt)
-                if pt[0] in ("fn", "struct", "enum", "const", "type", "static", "trait") and len(pt) == 2:
+                if pt[0] in ("fn", "struct", "enum", "const", "type", "static", "trait") and (len(pt) == 2 or (len(pt) == 3 and pt[1] == "$")):
                     # item: name must be followed by non-identifier continuation
                     if pt[0] == "fn" and toks[q].s not in ("(", "<"):
                         continue
@@ -631,6 +631,10 @@ RULES = {
     # num_integer::Integer::is_even on a primitive (external crate) -> helper with the arithmetic definition
     "R15e": Rule("R15e", "n.is_even() (n: u32) -> __u32_is_even(n)", "n . is_even ( )", "__u32_is_even ( n )"),
     "R12f": Rule("R12f", "X.data == [1] -> __vec_is_one(&X.data)", "$x . data == [ 1 ]", "__vec_is_one ( & $x . data )"),
+    "R3k": Rule("R3k", "self.data[i].F().into() -> From::from(self.data[i].F())  (std: blanket `impl Into<U> for T where U: From<T>`)",
+                "self . data [ i ] . $f ( ) . into ( )", "From :: from ( self . data [ i ] . $f ( ) )"),
+    "R3b": Rule("R3b", "(digit & bit_mask) with digit: &u64 -> (*digit & bit_mask)  (std: `impl BitAnd<u64> for &u64` is `*self & rhs`)",
+                "( digit & bit_mask )", "( * digit & bit_mask )"),
     "R3i": Rule("R3i", "rem.into() -> From::from(rem)  (std: blanket `impl Into<U> for T where U: From<T>`)", "rem . into ( )", "From :: from ( rem )"),
     "R3o": Rule("R3o", "One::one() -> BigUint::one()  (the impl selected by the return type)", "One :: one ( )", "BigUint :: one ( )"),
     "R12g": Rule("R12g", "BigDigit::from_u128(x) -> __digit_from_u128(x)  (num_traits::FromPrimitive on u64: external crate; helper carries the assumed contract)",
